@@ -35,7 +35,10 @@ THEOREMS['C09'] = ['FB.Conc.P4.ordered_no_deadlock', 'FB.Conc.P1.claim_unique', 
                    'FB.Conc.P2.count_is_registered', 'FB.Conc.P2.arbitration_correct', 'FB.Conc.P2.arbInv_run',
                    'FB.Conc.P2.arbitration_counterexample_before_fix', 'FB.BuildDirs.started_inv', 'FB.BuildDirs.registerUp_inv',
                    'FB.ConcDirs.created_iff_new', 'FB.ConcDirs.created_sound', 'FB.ConcDirs.j_run', 'FB.BuildDirs.started_post',
-                   'FB.ConcDirs.ex_created', 'FB.ConcDirs.ex_done']
+                   'FB.ConcDirs.ex_created', 'FB.ConcDirs.ex_done',
+                   'FB.ConcDirsF.dirs_accounted', 'FB.ConcDirsF.j_run', 'FB.BuildDirs.hasCount_iff_live', 'FB.BuildDirs.started_general',
+                   'FB.BuildDirs.error_general', 'FB.BuildDirs.started_shadow', 'FB.BuildDirs.error_shadow',
+                   'FB.ConcDirsF.ex_one_fails', 'FB.ConcDirsF.ex_both_fail']
 THEOREMS['C17'] = ['FB.Conc.P3.C17_no_append_after_close', 'FB.Conc.P3.C17_completed_in_record', 'FB.Conc.P3.C17_sequential_fence',
                    'FB.Conc.P3.straggler_counterexample']
 THEOREMS['C08'] += ['FB.Conc.P1.claim_unique', 'FB.Conc.P1.executed_at_most_once']
@@ -937,12 +940,14 @@ def check_C18(tier):
 
 
 DIRS_SCENARIOS = {'shared_new_dir_deep': ['a/b/x', 'a/b/y'], 'sibling_dirs': ['a/b/x', 'a/c/y']}
+# ... and with failing builds (FB.ConcDirsF): which threads' functions raise
+DIRSF_SCENARIOS = {'one_fails': (['a/x', 'a/y'], [0]), 'both_fail': (['a/b/x', 'a/b/y'], [0, 1]), 'fail_alone_in_dir': (['a/x', 'c/y'], [0])}
 
 
 def _scenario_classifier(name):
     if name in ('shared_new_dir', 'three_threads'):
         return threadcheck.classify_p2
-    if name in DIRS_SCENARIOS:
+    if name in DIRS_SCENARIOS or name in DIRSF_SCENARIOS:
         return threadcheck.classify_dirs
     if name in ('dup_file', 'dup_sub', 'dup_sub_cached', 'dup_sub_json_equal', 'dup_sub_json_equal_cached'):
         return threadcheck.classify_p1
@@ -981,6 +986,8 @@ def explore_threads(prop, tier, rep, names, bound, cap):
             classify, proto = threadcheck.classify_p2, ('P2', 3)
         elif name in DIRS_SCENARIOS:
             classify, proto = threadcheck.classify_dirs, ('DIRS', 2, DIRS_SCENARIOS[name])
+        elif name in DIRSF_SCENARIOS:
+            classify, proto = threadcheck.classify_dirs, ('DIRSF', 2) + DIRSF_SCENARIOS[name]
         elif name in ('dup_file', 'dup_sub', 'dup_sub_cached', 'dup_sub_json_equal', 'dup_sub_json_equal_cached'):
             classify, proto = threadcheck.classify_p1, ('P1', 2)
         n, fails, e, maxdec, nseq, cl = results[name]
@@ -992,7 +999,7 @@ def explore_threads(prop, tier, rep, names, bound, cap):
             extra = classes - mo
             if extra:
                 rep.violation('tie_%s' % name, {'property': prop, 'kind': 'correspondence-broken',
-                                                'no_longer_checks': 'outcomes of the real code under the explored schedules are outcomes of the protocol model %s' % ('FB.ConcDirs' if proto[0] == 'DIRS' else 'FB.Conc.' + proto[0]),
+                                                'no_longer_checks': 'outcomes of the real code under the explored schedules are outcomes of the protocol model %s' % ({'DIRS': 'FB.ConcDirs', 'DIRSF': 'FB.ConcDirsF'}.get(proto[0]) or 'FB.Conc.' + proto[0]),
                                                 'scenario': name, 'real_only_outcomes': sorted(extra), 'model_outcomes': sorted(mo),
                                                 'failing_schedules': [f for f in fails if core.match_known(prop, None, [f]) is None][:3]},
                               note='real outcome(s) %s not reachable in the model %s' % (sorted(extra), proto[0]),
